@@ -689,6 +689,169 @@ static void describe(sb_t *o)
 	else
 		bfs_describe(&cb, o);
 }
+/* ---- the array_list API used directly, with the application's own release callback (json-c's own is
+ * json_object_put, which tolerates NULL; an application's need not): every script over a tiny
+ * alphabet, compared with a list model; the callback is never handed an empty slot and sees each
+ * stored element exactly once ---- */
+#include "arraylist.h"
+static int dl_released[64], dl_null_calls;
+static void dl_free(void *p)
+{
+	if (!p)
+	{
+		dl_null_calls++;
+		return;
+	}
+	dl_released[(int)(intptr_t)p]++;
+}
+static void fam_direct(void)
+{
+	in_scale = 1;
+	/* operations: a = add(next), p = put_idx(len+2, next) (creates a gap), n = put_idx(0, NULL), i = insert_idx(1, next),
+	 * d = del_idx(0, 2), D = del_idx(1, len-1), s = shrink(0) */
+	static const char ops[] = "apnidDs";
+	int nops = (int)strlen(ops), L = mc_tier ? 6 : 5;
+	int idx[8] = {0};
+	for (int len = 1; len <= L; len++)
+	{
+		memset(idx, 0, sizeof idx);
+		for (;;)
+		{
+			char script[16];
+			for (int k = 0; k < len; k++)
+				script[k] = ops[idx[k]];
+			script[len] = 0;
+			for (int cap = 0; cap < 2; cap++)
+			{
+				snprintf(scaledesc, sizeof scaledesc, "scale direct array_list script=%s cap=%d", script, cap ? 1 : 32);
+				if (!mc_case_begin())
+					continue;
+				memset(dl_released, 0, sizeof dl_released);
+				dl_null_calls = 0;
+				struct array_list *al = cap ? array_list_new2(dl_free, 1) : array_list_new(dl_free);
+				int model[128], mlen = 0, next = 1, expd[64] = {0}, bad = 0;
+				for (int k = 0; k < len && !bad; k++)
+				{
+					int rc = 0;
+					MC_COUNT("calls", 1);
+					switch (script[k])
+					{
+					case 'a': rc = array_list_add(al, (void *)(intptr_t)next); model[mlen++] = next++; break;
+					case 'p':
+						rc = array_list_put_idx(al, (size_t)mlen + 2, (void *)(intptr_t)next);
+						model[mlen] = model[mlen + 1] = 0;
+						model[mlen + 2] = next++;
+						mlen += 3;
+						break;
+					case 'n':
+						rc = array_list_put_idx(al, 0, NULL);
+						if (mlen == 0)
+							mlen = 1;
+						else if (model[0])
+							expd[model[0]]++;
+						model[0] = 0;
+						break;
+					case 'i':
+						rc = array_list_insert_idx(al, 1, (void *)(intptr_t)next);
+						if (mlen <= 1)
+						{
+							if (mlen == 0)
+								model[mlen++] = 0;
+							model[mlen++] = next++;
+						}
+						else
+						{
+							memmove(&model[2], &model[1], (size_t)(mlen - 1) * sizeof(int));
+							model[1] = next++;
+							mlen++;
+						}
+						break;
+					case 'd':
+					case 'D':
+					{
+						size_t from = script[k] == 'd' ? 0 : 1, cnt = script[k] == 'd' ? 2 : (mlen > 1 ? (size_t)mlen - 1 : 1);
+						int valid = from < (size_t)mlen && from + cnt <= (size_t)mlen;
+						rc = array_list_del_idx(al, from, cnt);
+						if ((rc == 0) != valid)
+						{
+							mc_violation(valid ? "scale:delete-failed" : "out-of-range-delete-accepted", "script %s step %d: del_idx(%zu,%zu) returned %d on length %d", script, k, from, cnt, rc, mlen);
+							bad = 1;
+							break;
+						}
+						rc = 0;
+						if (valid)
+						{
+							for (size_t q = from; q < from + cnt; q++)
+								if (model[q])
+									expd[model[q]]++;
+							memmove(&model[from], &model[from + cnt], ((size_t)mlen - from - cnt) * sizeof(int));
+							mlen -= (int)cnt;
+						}
+						break;
+					}
+					default: rc = array_list_shrink(al, 0); break;
+					}
+					if (rc != 0)
+					{
+						mc_violation("scale:put-failed", "script %s step %d (%c) returned %d", script, k, script[k], rc);
+						bad = 1;
+					}
+					if (dl_null_calls)
+					{
+						mc_violation("release-callback-on-empty-slot", "script %s step %d (%c): the release callback was called %d time(s) with NULL", script, k, script[k], dl_null_calls);
+						bad = 1;
+					}
+					if ((int)array_list_length(al) != mlen)
+					{
+						mc_violation("scale:length-differs-from-model", "script %s step %d: length %zu, model %d", script, k, array_list_length(al), mlen);
+						bad = 1;
+					}
+					for (int q = 0; q < mlen && !bad; q++)
+						if ((int)(intptr_t)array_list_get_idx(al, (size_t)q) != model[q])
+						{
+							mc_violation("scale:element-differs-from-model", "script %s step %d: element %d is %d, model %d", script, k, q, (int)(intptr_t)array_list_get_idx(al, (size_t)q), model[q]);
+							bad = 1;
+						}
+					for (int e = 1; e < next && !bad; e++)
+						if (dl_released[e] != expd[e])
+						{
+							mc_violation("scale:release-set-differs", "script %s step %d: element %d released %d time(s), model %d", script, k, e, dl_released[e], expd[e]);
+							bad = 1;
+						}
+				}
+				for (int q = 0; q < mlen; q++)
+					if (model[q])
+						expd[model[q]]++;
+				array_list_free(al);
+				if (!bad)
+				{
+					if (dl_null_calls)
+						mc_violation("release-callback-on-empty-slot", "script %s: array_list_free called the release callback with NULL", script);
+					for (int e = 1; e < next; e++)
+						if (dl_released[e] != expd[e])
+						{
+							mc_violation("scale:release-set-differs", "script %s: after array_list_free element %d was released %d time(s), model %d", script, e, dl_released[e], expd[e]);
+							break;
+						}
+				}
+				if (vf_live())
+				{
+					mc_violation("leak", "%ld blocks live", vf_live());
+					mc_restart_worker();
+				}
+				mc_nontrivial(mc_hash_str(scaledesc));
+				mc_sample_current();
+			}
+			int k = 0;
+			while (k < len && ++idx[k] == nops)
+				idx[k++] = 0;
+			if (k == len)
+				break;
+		}
+	}
+	in_scale = 0;
+}
+
 static void enumerate(void)
 {
 	struct bfs_stats st;
@@ -698,10 +861,16 @@ static void enumerate(void)
 	MC_MAX("depth_completed", st.max_depth_done);
 	fam_sort();
 	fam_scale();
+	fam_direct();
 }
 static int replay(const char *desc)
 {
-	if (strstr(desc, "scale fill="))
+	if (strstr(desc, "scale direct"))
+	{
+		mc_case_begin_all();
+		fam_direct();
+	}
+	else if (strstr(desc, "scale fill="))
 		fam_scale();
 	else if (strstr(desc, "sort cap="))
 		fam_sort();
